@@ -500,6 +500,36 @@ def install(reg):
         return [(st, VNone())]
     reg.externals['dict.add'] = _sadd
 
+    @ext('list.insert')
+    def _linsert(ex, st, args, kw, node):
+        l, pos, v = args
+        p = z3.simplify(ex.as_int(pos, node))
+        if not (z3.is_int_value(p) and p.as_long() == 0):
+            ex.unsupported(node, 'list.insert at a position other than 0')
+        n = ex.list_len(st, l)
+        arr = ex.list_arr(st, l)
+        j = z3.Int(fresh_name('ij'))
+        ex.list_store(st, l, n + 1, z3.Lambda([j], z3.If(j == 0, to_term(coerce(v, l.e)), z3.Select(arr, j - 1))))
+        return [(st, VNone())]
+
+    @ext('builtins.getattr')
+    def _getattr(ex, st, args, kw, node):
+        """getattr(obj, name[, default]) for a declared optional field: an absent attribute is modelled as None"""
+        obj, name = args[0], args[1]
+        if not (isinstance(name, VStr) and name.lit is not None and isinstance(obj, VRef)):
+            ex.unsupported(node, 'getattr with a computed name')
+        out = []
+        for s, v in ex.getattr(st, obj, name.lit, node):
+            if s.exc is not None or len(args) < 3 or not isinstance(v, VOpt):
+                out.append((s, v))
+                continue
+            st_t, st_f = ex.branch(s, v.is_none())
+            if st_t is not None:
+                out.append((st_t, args[2]))
+            if st_f is not None:
+                out.append((st_f, v.some()))
+        return out
+
     @ext('builtins.tuple')
     def _tuple(ex, st, args, kw, node):
         if not args:
